@@ -52,7 +52,7 @@ class Ctx:
         self.fp_cache = {}; self.fp_point = {}; self.alg_axiom_ids = set(); self.uf_index = {}
         self.sin_exact = 0           # >0: link sin(t) to exact values for t = pi*p/q <= sin_exact*pi (C07/C08 oracles)
         self.exp_underflow = False   # IEEE fact exp(t)=0 for t<=-746 (switched on by C03 harnesses)
-        self.feas_timeout = 8000
+        self.feas_timeout = 30000
 
     def base(self):
         return self.assumes + self.side + self.axioms + self.pc
@@ -116,6 +116,20 @@ class Ctx:
         self.stats['max_query_s'] = max(self.stats['max_query_s'], dt)
         return r, sv
 
+    def _feasible(self, cond):
+        """may `cond` hold on this path? First against the input assumptions and the path condition only (fewer
+        hypotheses: `unsat` there is `unsat` for sure and needs no large context), then against everything.
+        `unknown` keeps the branch (over-approximation of paths)."""
+        sv = z3.Solver(); sv.set('timeout', self.feas_timeout)
+        sv.add(*self.assumes); sv.add(*self.pc); sv.add(cond)
+        t = time.time(); r = str(sv.check()); dt = time.time() - t
+        self.stats['queries'] += 1; self.stats['solver_s'] += dt
+        if r == 'unsat':
+            return False
+        if not (self.side or self.axioms):
+            return True
+        return self.check(cond)[0] != 'unsat'
+
     def decide(self, cond):
         cond = z3.simplify(cond)
         if z3.is_true(cond):
@@ -125,8 +139,8 @@ class Ctx:
         if self.pos < len(self.decisions):
             d = self.decisions[self.pos]
         else:
-            t_ok = self.check(cond)[0] != 'unsat'       # unknown => keep the branch (over-approx)
-            f_ok = self.check(z3.Not(cond))[0] != 'unsat'
+            t_ok = self._feasible(cond)
+            f_ok = self._feasible(z3.Not(cond))
             if t_ok and f_ok:
                 d = (True, True)
                 self.stats['forks'] += 1
